@@ -60,11 +60,15 @@ def build_base(n, prog):
             sw = {k: 1}
             sw.update({m: m + 1 for m in range(1, k)})
             outer.mode_swaps(sw); outer.herald(0, k, 1)
+        elif w == "DHX":          # two crossing heralds with different photon numbers above the qubits, declared BEFORE
+            outer = lw.Circuit(k + 2)       # the program (with its own heralded gates) is added
+            outer.mode_swaps({k: k + 1, k + 1: k}); outer.herald(1, k, k + 1); outer.herald(0, k + 1, k)
+            outer.add(c, 0)
         c = outer
     return c
 
 
-WRAPPERS = ("DH0", "DHph", "DHmid")
+WRAPPERS = ("DH0", "DHph", "DHmid", "DHX")
 
 
 def program_unitary(n, prog):
